@@ -194,7 +194,8 @@ class BackRefs(Part):
     def describe(self, tier):
         return ('3-bus net, areas 1/2; machines (GENCLS / GENROU mixed) on static generators {S, G2, G3}: all assignments '
                 'of <= 3 machines; exciters (EXDC2 / IEEEX1) and governors (TGOV1) on machines: all assignments of <= 3; '
-                'BackRef lists on StaticGen, SynGen, Area compared with the reference multiset')
+                'BackRef lists on StaticGen, SynGen, Area compared with the reference multiset after setup and after each of two '
+                'System.reset() calls')
 
     def cases(self, tier):
         out = []
@@ -245,37 +246,51 @@ class BackRefs(Part):
             out.bad(f'setup_raises:{type(e).__name__}', f'{e}')
             out.obs = dict(exc=type(e).__name__)
             return out
-        # StaticGen.SynGen back reference
-        exp = {g: [m for m, t in zip(syn_ids, case['syn']) if t == g] for g in bus_of}
         got = {}
-        for g in bus_of:
-            uid = ss.StaticGen.idx2uid(g)
-            lst = list(ss.StaticGen.SynGen.v[uid])
-            got[g] = lst
-            if sorted(lst) != sorted(exp[g]):
-                out.bad('backref_group_wrong:StaticGen.SynGen', f'{g}: {lst} vs referrers {exp[g]}')
-            mdl = ss.StaticGen.idx2model(g)
-            lst2 = list(mdl.SynGen.v[mdl.idx2uid(g)])
-            if sorted(lst2) != sorted(exp[g]):
-                out.bad('backref_model_wrong:PV.SynGen', f'{mdl.class_name} {g}: {lst2} vs referrers {exp[g]}')
-        for m in syn_ids:
-            uid = ss.SynGen.idx2uid(m)
-            e = list(ss.SynGen.Exciter.v[uid])
-            t = list(ss.SynGen.TurbineGov.v[uid])
-            if sorted(e) != sorted(exc_ref.get(m, [])):
-                out.bad('backref_group_wrong:SynGen.Exciter', f'{m}: {e} vs {exc_ref.get(m, [])}')
-            if sorted(t) != sorted(gov_ref.get(m, [])):
-                out.bad('backref_group_wrong:SynGen.TurbineGov', f'{m}: {t} vs {gov_ref.get(m, [])}')
-        # Area.Bus
-        for a, buses in ((1, [1, 3]), (2, [2])):
-            lst = list(ss.Area.Bus.v[ss.Area.idx2uid(a)]) if a in ss.Area.uid else None
-            if lst is not None and sorted(lst) != buses:
-                out.bad('backref_model_wrong:Area.Bus', f'area {a}: {lst} vs {buses}')
-        # external parameter resolution follows the index field
-        for m, g in zip(syn_ids, case['syn']):
-            mdl = ss.SynGen.idx2model(m)
-            uid = mdl.idx2uid(m)
-            p0s = float(mdl.p0s.v[uid]) if hasattr(mdl, 'p0s') and len(np.atleast_1d(mdl.p0s.v)) > uid else None
+
+        def compare(stage):
+            sfx = '' if stage == 'setup' else ':' + stage
+            # StaticGen.SynGen back reference
+            exp = {g: [m for m, t in zip(syn_ids, case['syn']) if t == g] for g in bus_of}
+            for g in bus_of:
+                uid = ss.StaticGen.idx2uid(g)
+                lst = list(ss.StaticGen.SynGen.v[uid])
+                got[g] = lst
+                if sorted(lst) != sorted(exp[g]):
+                    out.bad('backref_group_wrong:StaticGen.SynGen' + sfx, f'{g}: {lst} vs referrers {exp[g]}')
+                mdl = ss.StaticGen.idx2model(g)
+                lst2 = list(mdl.SynGen.v[mdl.idx2uid(g)])
+                if sorted(lst2) != sorted(exp[g]):
+                    out.bad('backref_model_wrong:PV.SynGen' + sfx, f'{mdl.class_name} {g}: {lst2} vs referrers {exp[g]}')
+            for m in syn_ids:
+                uid = ss.SynGen.idx2uid(m)
+                e = list(ss.SynGen.Exciter.v[uid])
+                t = list(ss.SynGen.TurbineGov.v[uid])
+                if sorted(e) != sorted(exc_ref.get(m, [])):
+                    out.bad('backref_group_wrong:SynGen.Exciter' + sfx, f'{m}: {e} vs {exc_ref.get(m, [])}')
+                if sorted(t) != sorted(gov_ref.get(m, [])):
+                    out.bad('backref_group_wrong:SynGen.TurbineGov' + sfx, f'{m}: {t} vs {gov_ref.get(m, [])}')
+            # Area.Bus
+            for a, buses in ((1, [1, 3]), (2, [2])):
+                lst = list(ss.Area.Bus.v[ss.Area.idx2uid(a)]) if a in ss.Area.uid else None
+                if lst is not None and sorted(lst) != buses:
+                    out.bad('backref_model_wrong:Area.Bus' + sfx, f'area {a}: {lst} vs {buses}')
+            # external parameter resolution follows the index field
+            for m, g in zip(syn_ids, case['syn']):
+                mdl = ss.SynGen.idx2model(m)
+                uid = mdl.idx2uid(m)
+                p0s = float(mdl.p0s.v[uid]) if hasattr(mdl, 'p0s') and len(np.atleast_1d(mdl.p0s.v)) > uid else None
+
+        compare('setup')
+        # the same System set up again (documented: System.reset): every referrer still exactly once
+        for stage in ('reset', 'reset2'):
+            try:
+                ss.reset()
+            except Exception as e:
+                out.bad(f'reset_raises:{type(e).__name__}', f'{stage}: {e}')
+                break
+            compare(stage)
+
         out.obs = dict(got=got, ok=bool(ok))
         out.nontrivial = len(case['syn']) > 0
         return out
